@@ -287,7 +287,7 @@ type stats struct {
 	evaluated, clean, reportedAsClaimed, unclaimedReported, unclaimedApplied, baseErr, outside, parse, badTypeCases int64
 	targets, framed                                                                                              int64
 	notInBase                                                                                                    int64
-	baseErrClass                                                                                                 map[string]int
+	baseErrClass, claimedWhy                                                                                     map[string]int
 	combos                                                                                                       map[string]bool
 	distinct                                                                                                     *lib.Distinct
 }
@@ -447,6 +447,17 @@ func evaluate(items []gen.C08Case, f *lib.Flags, res *lib.Result, st *stats, ver
 			continue
 		case len(claimed) > 0:
 			st.reportedAsClaimed++
+			why := claimed[0]
+			if i := strings.LastIndex(why, ": "); i >= 0 {
+				why = why[i+2:]
+			}
+			if strings.HasPrefix(claimed[0], "no target") {
+				why = "no target"
+				if strings.Contains(claimed[0], "removed by") {
+					why = "no target (removed earlier)"
+				}
+			}
+			st.claimedWhy[why]++
 			st.distinct.Add(key)
 			if it.Combo != "" {
 				st.combos[it.Combo] = true
@@ -456,6 +467,9 @@ func evaluate(items []gen.C08Case, f *lib.Flags, res *lib.Result, st *stats, ver
 			// invalid by the RFC for a reason the property does not promise a report for; the library
 			// may report it anyway (e.g. a second not-supported)
 			st.unclaimedReported++
+			if it.Combo != "" {
+				st.combos[it.Combo] = true
+			}
 			continue
 		case goErr:
 			res.AddDisagreement(lib.Disagreement{Kind: "spec", Input: it, Go: lib.Project(ow.Go.Dump, keys, true), Model: "no condition of RFC 7950 7.20.3 is broken",
@@ -618,7 +632,7 @@ func main() {
 		rescorr.ServeChild(nil)
 		return
 	}
-	st := &stats{combos: map[string]bool{}, distinct: lib.NewDistinct(), baseErrClass: map[string]int{}}
+	st := &stats{combos: map[string]bool{}, distinct: lib.NewDistinct(), baseErrClass: map[string]int{}, claimedWhy: map[string]int{}}
 	if f.Replay != "" {
 		raw, err := os.ReadFile(f.Replay)
 		if err != nil {
@@ -646,9 +660,9 @@ func main() {
 	res := lib.NewResult("C08", f)
 	items := gen.C08Exhaustive()
 	nEx := len(items)
-	n := 2500
+	n := 15000
 	if f.Thorough() {
-		n = 100000
+		n = 300000
 	}
 	for i := 0; i < n; i++ {
 		items = append(items, gen.C08Random(f.Rand(i)))
@@ -688,6 +702,7 @@ func main() {
 	res.Distribution["reported(error demanded by the property)"] = st.reportedAsClaimed
 	res.Distribution["rfc_invalid_outside_claim_reported_anyway"] = st.unclaimedReported
 	res.Distribution["rfc_invalid_outside_claim_applied(compared with the effect function)"] = st.unclaimedApplied
+	res.Distribution["reported_first_reason"] = st.claimedWhy
 	res.Distribution["base_has_errors"] = st.baseErr
 	res.Distribution["base_error_classes"] = st.baseErrClass
 	res.Distribution["outside_model_runs"] = st.outside
